@@ -385,9 +385,11 @@ pub fn gen_history(seed: u64, idx: u64) -> Vec<FfiOp> {
                 }
             };
             let k = n.saturating_sub(d.h.num_rows());
-            let out_len = match g.below(4) {
+            let out_len = match g.below(5) {
                 0 => n,
                 1 => k.min(n),
+                // nothing wanted back but the verdict (seeded change C19-r6-2 answers -1)
+                2 => 0,
                 _ => k.min(n) + g.below((n - k.min(n)) as u64 + 1) as usize,
             };
             ops.push(FfiOp::Decode { slot, f32: g.chance(1, 3), llrs, out_len, max_iter: *g.pick(&[0u32, 0, 1, 2, 5, 20]) });
@@ -395,7 +397,10 @@ pub fn gen_history(seed: u64, idx: u64) -> Vec<FfiOp> {
             let slot = *g.pick(&live_enc);
             let e = encs[slot].as_ref().unwrap();
             let k = e.h.num_cols() - e.h.num_rows();
-            ops.push(FfiOp::Encode { slot, bits: (0..k).map(|_| g.below(2) as u8).collect() });
+            // (now and then bytes that are neither 0 nor 1: the C encoder must treat them as the
+            // Rust-side conversion does, seeded change C19-r6-1 copies them to the output)
+            let odd = g.chance(1, 5);
+            ops.push(FfiOp::Encode { slot, bits: (0..k).map(|_| if odd && g.chance(1, 3) { *g.pick(&[2u8, 3, 255, 128, 0x30, 0x31]) } else { g.below(2) as u8 }).collect() });
         } else if decs[slot].is_some() {
             ops.push(FfiOp::DecDtor { slot });
             decs[slot] = None;
@@ -435,8 +440,17 @@ impl Exec {
     }
 
     fn path_for(&mut self, source: &Source, content: &[u8]) -> CString {
-        self.file_no += 1;
+        // a handful of path names, reused over and over with other contents (and as a directory,
+        // and missing): a constructor must read what is there *now* (seeded change C19-r6-3
+        // caches file contents by path and never looks again)
+        let h = content.iter().fold(0x9E37u64, |a, &b| (a ^ u64::from(b)).wrapping_mul(0x100000001b3));
+        self.file_no = 1 + h % 4;
         let p = self.dir.join(format!("f{}.alist", self.file_no));
+        if p.is_dir() {
+            let _ = std::fs::remove_dir_all(&p);
+        } else {
+            let _ = std::fs::remove_file(&p);
+        }
         match source {
             Source::File => {
                 std::fs::write(&p, content).expect("simulated file system: cannot write");
